@@ -15,9 +15,22 @@ Definition ty_max (ty : Z) : N :=
 Definition ty_size (ty : Z) : N :=
   zN (match ty with 0 | 4 => 1 | 1 | 5 => 2 | 2 | 6 => 4 | _ => 8 end).
 
-(* c.decay(d) = (c as f64 * d).trunc() as T  (values below 2^63 only; see DESIGN) *)
+(* `x as f64` for a u64 x: round to nearest even.  Below 2^63 this is of_uint63; above, the value
+   is halved with a sticky low bit (more than 10 spare bits, so the rounding is unchanged) and doubled. *)
+Definition float_of_u64 (z : Z) : float :=
+  if z <? 9223372036854775808 then float_of_Z63 z
+  else PrimFloat.mul (float_of_Z63 (Z.lor (z / 2) (z mod 2))) (float_of_Z63 2).
+
+(* c.decay(d) = (c as f64 * d).trunc() as T *)
 Definition decay_fn (mx : N) (dbits : Z) (c : N) : N :=
-  zN (Z_of_float_trunc_sat 0 (Nz mx) (PrimFloat.mul (float_of_Z63 (Nz c)) (float_of_bits dbits))).
+  zN (Z_of_float_trunc_sat 0 (Nz mx) (PrimFloat.mul (float_of_u64 (Nz c)) (float_of_bits dbits))).
+
+(* the error term of upper_bound: T::from_f64(relative_error() * total_weight as f64),
+   relative_error() = std::f64::consts::E / num_buckets as f64 *)
+Definition E_bits : Z := 4613303445314885481.   (* std::f64::consts::E = 2.718281828459045 *)
+Definition err_fn (mx nb total : N) : N :=
+  zN (Z_of_float_trunc_sat 0 (Nz mx)
+        (PrimFloat.mul (PrimFloat.div (float_of_bits E_bits) (float_of_u64 (Nz nb))) (float_of_u64 (Nz total)))).
 
 Definition slots := list (option cm).
 Definition get_slot (st : slots) (i : Z) : option cm := nth (Z.to_nat i) st None.
@@ -84,6 +97,11 @@ Definition step (cfg : list Z) (st : slots) (o : zop) : slots * list Z :=
                      | Ok s' => (put_slot st (nth 1 a 0) s', [1])
                      | _ => (st, ERR) end
          | None => (st, EMPTY) end
+  | 11 => (* bounds: [lower_bound; upper_bound] of an item (a = slot :: item :: buckets) *)
+         match get_slot st slot with
+         | Some s => let bk := map zN (skipn 2 a) in
+                     (st, [Nz (cm_lower_bound s bk); Nz (cm_upper_bound s bk (err_fn mx (cm_nb s) (cm_total s)))])
+         | None => (st, EMPTY) end
   | _ => (st, PANIC)
   end.
 
@@ -134,6 +152,10 @@ Fixpoint prop_from (cfg : list Z) (st : ospec) (ops : list zop) (obs : list (lis
       | 6 => let '(m, t) := og st slot in let g := decay_fn mx (nth 1 a 0) in
              prop_from cfg (op_ st slot (map (fun p => (fst p, g (snd p))) m, g t)) r obr
       | 8 => let '(m, t) := og st slot in (Nz t =? nth 0 ob 0) && prop_from cfg st r obr
+      | 11 => let '(m, t) := og st slot in
+              let lo := zN (nth 0 ob 0) in let hi := zN (nth 1 ob 0) in
+              (* truth <= lower_bound <= upper_bound (an upper bound below the estimate is D15's symptom) *)
+              N.leb (tm_get m (nth 1 a 0)) lo && N.leb lo hi && N.leb hi mx && prop_from cfg st r obr
       | 9 => true (* arbitrary image: history unknown from here on *)
       | 10 => prop_from cfg (op_ st (nth 1 a 0) (og st slot)) r obr
       | _ => prop_from cfg st r obr
@@ -158,7 +180,17 @@ Fixpoint spec_add (nb w row : N) (bk : list N) (t : list N) : list N :=
 Definition sg (st : list (option spec_state)) (i : Z) := nth (Z.to_nat i) st None.
 Definition sp (st : list (option spec_state)) (i : Z) v := set_nth (Z.to_nat i) v st.
 
-Fixpoint layout_from (cfg : list Z) (st : list (option spec_state)) (ops : list zop) (obs : list (list Z)) : bool :=
+(* exact estimate from the exact table: min over the rows of the item's cells (starting from T::MAX) *)
+Fixpoint spec_min (nb row : N) (bk : list N) (t : list N) (acc : N) : N :=
+  match bk with
+  | [] => acc
+  | b :: r => spec_min nb (row + 1)%N r t (N.min acc (nthN t (row * nb + b)%N 0%N))
+  end.
+
+(* [strict] (C13): a deserialize op whose image is valid under the format (the independent decoder
+   reads it and the decoded state is admissible for the counter type) MUST be accepted, and from
+   then on the slot holds exactly the decoded table. *)
+Fixpoint layout_from (strict : bool) (cfg : list Z) (st : list (option spec_state)) (ops : list zop) (obs : list (list Z)) : bool :=
   match ops, obs with
   | (code, a) :: r, ob :: obr =>
       let nh := zN (nth 1 cfg 0) in let nb := zN (nth 2 cfg 0) in let sh := zN (nth 4 cfg 0) in
@@ -166,11 +198,14 @@ Fixpoint layout_from (cfg : list Z) (st : list (option spec_state)) (ops : list 
       let slot := nth 0 a 0 in
       if list_eqb Z.eqb ob PANIC then true else
       match code with
-      | 0 => layout_from cfg (sp st slot (Some (0%N, repeat 0%N (N.to_nat (nh * nb))))) r obr
+      | 0 => layout_from strict cfg (sp st slot (Some (0%N, repeat 0%N (N.to_nat (nh * nb))))) r obr
       | 1 => match sg st slot with
              | Some (t, tab) => let w := zN (nth 2 a 0) in
-                 layout_from cfg (sp st slot (Some (N.add t w, spec_add nb w 0 (map zN (skipn 3 a)) tab))) r obr
-             | None => layout_from cfg st r obr end
+                 layout_from strict cfg (sp st slot (Some (N.add t w, spec_add nb w 0 (map zN (skipn 3 a)) tab))) r obr
+             | None => layout_from strict cfg st r obr end
+      | 2 => match sg st slot with
+             | Some (t, tab) => (Nz (spec_min nb 0 (map zN (skipn 2 a)) tab mx) =? nth 0 ob (-1)) && layout_from strict cfg st r obr
+             | None => layout_from strict cfg st r obr end
       | 3 => match sg st slot with
              | Some (t, tab) =>
                  let bytes := map zN ob in
@@ -180,29 +215,50 @@ Fixpoint layout_from (cfg : list Z) (st : list (option spec_state)) (ops : list 
                   | None => false end) &&
                  (* C18: the size is fixed by the configuration *)
                  Nat.eqb (length ob) (if N.eqb t 0 then 16 else 16 + 8 + 8 * N.to_nat (nh * nb)) &&
-                 layout_from cfg st r obr
-             | None => layout_from cfg st r obr end
+                 layout_from strict cfg st r obr
+             | None => layout_from strict cfg st r obr end
       | 4 => match sg st slot, sg st (nth 1 a 0) with
              | Some (t, tab), Some (t2, tab2) =>
-                 layout_from cfg (sp st slot (Some (N.add t t2, map (fun p => N.add (fst p) (snd p)) (combine tab tab2)))) r obr
-             | _, _ => layout_from cfg st r obr end
+                 layout_from strict cfg (sp st slot (Some (N.add t t2, map (fun p => N.add (fst p) (snd p)) (combine tab tab2)))) r obr
+             | _, _ => layout_from strict cfg (sp st slot None) r obr end
       | 5 => match sg st slot with
-             | Some (t, tab) => layout_from cfg (sp st slot (Some (N.div t 2, map (fun c => N.div c 2) tab))) r obr
-             | None => layout_from cfg st r obr end
+             | Some (t, tab) => layout_from strict cfg (sp st slot (Some (N.div t 2, map (fun c => N.div c 2) tab))) r obr
+             | None => layout_from strict cfg st r obr end
       | 6 => match sg st slot with
              | Some (t, tab) => let g := decay_fn mx (nth 1 a 0) in
-                 layout_from cfg (sp st slot (Some (g t, map g tab))) r obr
-             | None => layout_from cfg st r obr end
-      | 9 => layout_from cfg (sp st slot None) r obr      (* arbitrary image: unknown history *)
-      | 10 => layout_from cfg (sp st (nth 1 a 0) (sg st slot)) r obr
-      | _ => layout_from cfg st r obr
+                 layout_from strict cfg (sp st slot (Some (g t, map g tab))) r obr
+             | None => layout_from strict cfg st r obr end
+      | 8 => match sg st slot with
+             | Some (t, tab) => (Nz t =? nth 0 ob (-1)) && layout_from strict cfg st r obr
+             | None => layout_from strict cfg st r obr end
+      | 9 => if strict then
+               match spec_decode (map zN (skipn 1 a)) with
+               | Some d =>
+                   if abs_okb mx sh d && N.eqb (a_nb d) nb && N.eqb (a_nh d) nh then
+                     (* valid under the format: must be read back to exactly this state *)
+                     list_eqb Z.eqb ob [1] && layout_from strict cfg (sp st slot (Some (a_total d, a_cells d))) r obr
+                   else layout_from strict cfg (sp st slot None) r obr
+               | None => layout_from strict cfg (sp st slot None) r obr
+               end
+             else layout_from strict cfg (sp st slot None) r obr      (* arbitrary image: unknown history *)
+      | 10 => layout_from strict cfg (sp st (nth 1 a 0) (sg st slot)) r obr
+      | 11 => match sg st slot with
+              | Some (t, tab) => let e := spec_min nb 0 (map zN (skipn 2 a)) tab mx in
+                  (* lower_bound is the exact minimum; upper_bound never falls below it nor exceeds T::MAX *)
+                  (Nz e =? nth 0 ob (-1)) && (Nz e <=? nth 1 ob (-1)) && (nth 1 ob (-1) <=? Nz mx) && layout_from strict cfg st r obr
+              | None => layout_from strict cfg st r obr end
+      | _ => layout_from strict cfg st r obr
       end
   | _, _ => true
   end.
 Definition prop_layout (c : case) : bool :=
-  layout_from (c_cfg c) (repeat None 8) (c_ops c) (c_obs c).
+  layout_from false (c_cfg c) (repeat None 8) (c_ops c) (c_obs c).
+(* C13: every image valid under the format is read back to the state it encodes *)
+Definition prop_foreign (c : case) : bool :=
+  layout_from true (c_cfg c) (repeat None 8) (c_ops c) (c_obs c).
 
 Definition no_panic : case -> bool := no_panic_oracle.
 
 (* oracles by number (tools/families/countmin.py: ORACLES) *)
-Definition oracles : list (Z * (case -> bool)) := [(0, prop_ok); (1, prop_roundtrip); (2, prop_layout); (3, no_panic)].
+Definition oracles : list (Z * (case -> bool)) :=
+  [(0, prop_ok); (1, prop_roundtrip); (2, prop_layout); (3, no_panic); (4, prop_foreign)].
